@@ -146,6 +146,19 @@ def run_stage(pid, flavour, binary, seconds, tier, seed, nworkers, extra, known_
             active.remove(wk)
             if rc in (0, 1, 2):
                 continue
+            if rc == 3:
+                # the worker abandoned a simulated world (deadlock / budget), reported it, and asked to be restarted
+                remaining = seconds - (now - t0)
+                if wk.last_begin is not None and remaining > 1 and restarts < 2000:
+                    restarts += 1
+                    cmd = list(wk.cmd)
+                    cmd[cmd.index("--from") + 1] = str(wk.last_begin + nworkers)
+                    cmd[cmd.index("--time") + 1] = str(remaining)
+                    nw = Worker(wk.idx, cmd, wk.env)
+                    nw.start()
+                    workers.append(nw)
+                    active.append(nw)
+                continue
             # the worker died: the run it had begun is the suspect; restart after it
             bad = wk.last_begin
             crashes.append({"run": bad, "kind": "crash rc=%d %s" % (rc, wk.crash or ""), "flavour": flavour,
